@@ -174,6 +174,48 @@ theorem tpfa_Mmatrix (g : Grid) (hwf : WellFormed g) (hpos : ∀ h ∈ g.hf, 0 <
       rw [this, sumTo_mul_left]; ring
     rw [h2]; linarith
 
+/-- Where the positivity hypothesis of `tpfa_Mmatrix` comes from on Cartesian / tensor grids with diagonal
+    permeability: there the outward normal of every half-face is a positive multiple of the vector from the
+    cell centre to the face centre, and for a diagonal tensor with positive entries this makes the half
+    transmissibility positive. -/
+theorem tpfa_thalf_pos_diagK (g : Grid) (h : HF) (k0 k1 k2 al : Rat)
+    (hK : g.perm h.cell = ⟨⟨k0, 0, 0⟩, ⟨0, k1, 0⟩, ⟨0, 0, k2⟩⟩)
+    (h0 : 0 < k0) (h1 : 0 < k1) (h2 : 0 < k2)
+    (hn : V3.smul h.sgn (g.normal h.face) = V3.smul al (dvec g h)) (hal : 0 < al)
+    (hd : (dvec g h).dot (dvec g h) ≠ 0) :
+    0 < tHalf g h := by
+  unfold tHalf
+  rw [hK, hn]
+  generalize dvec g h = d at hd ⊢
+  obtain ⟨x, y, z⟩ := d
+  simp only [V3.dot, M3.mulVec, V3.smul] at hd ⊢
+  have hx := mul_self_nonneg x
+  have hy := mul_self_nonneg y
+  have hz := mul_self_nonneg z
+  have hdd : 0 < x * x + y * y + z * z := lt_of_le_of_ne (by linarith) (Ne.symm hd)
+  apply div_pos _ hdd
+  have e : x * (k0 * (al * x) + 0 * (al * y) + 0 * (al * z)) + y * (0 * (al * x) + k1 * (al * y) + 0 * (al * z))
+      + z * (0 * (al * x) + 0 * (al * y) + k2 * (al * z)) = al * (k0 * (x * x) + k1 * (y * y) + k2 * (z * z)) := by ring
+  rw [e]
+  apply mul_pos hal
+  by_cases hx0 : x = 0
+  · by_cases hy0 : y = 0
+    · have hz0 : 0 < z * z := by subst hx0; subst hy0; simpa using hdd
+      have := mul_pos h2 hz0
+      have := mul_nonneg h0.le hx
+      have := mul_nonneg h1.le hy
+      linarith
+    · have hy1 : 0 < y * y := lt_of_le_of_ne hy (Ne.symm (mul_self_ne_zero.mpr hy0))
+      have := mul_pos h1 hy1
+      have := mul_nonneg h0.le hx
+      have := mul_nonneg h2.le hz
+      linarith
+  · have hx1 : 0 < x * x := lt_of_le_of_ne hx (Ne.symm (mul_self_ne_zero.mpr hx0))
+    have := mul_pos h0 hx1
+    have := mul_nonneg h1.le hy
+    have := mul_nonneg h2.le hz
+    linarith
+
 /-- Exactness on K-orthogonal grids, interior face.  Constant symmetric `K`, both half-faces K-orthogonal
     (`K n_i = λ_i d_i` with `n_i` the outward normal and `d_i` the vector from the cell centre to the face
     centre), affine pressure `p(x) = a + G.x` at the two cell centres: the two-point flux across the face
@@ -421,6 +463,11 @@ example : cellOp ex2 0 1 ≤ 0 ∧ 0 < cellOp ex2 0 0 ∧
   have h := tpfa_Mmatrix ex2 (by unfold WellFormed; decide +kernel) (by decide +kernel)
   ⟨h.1 0 1 (by decide), h.2.2.1 0 ⟨⟨0, 0, -1⟩, by decide +kernel, rfl, by decide +kernel⟩, h.2.2.2 0 (by decide)⟩
 example : cellOp ex2 0 0 = 7 / 2 ∧ cellOp ex2 0 1 = -3 / 2 ∧ cellOp ex2 1 1 = 7 / 2 := by decide +kernel
+
+/-- half-face (face 1, cell 0) of `ex2`: `K = diag(1,2,1)`, outward normal `(1,0,0) = 2 d` -/
+example : 0 < tHalf ex2 ⟨1, 0, 1⟩ :=
+  tpfa_thalf_pos_diagK ex2 ⟨1, 0, 1⟩ 1 2 1 2 rfl (by decide) (by decide) (by decide) (by decide +kernel)
+    (by decide) (by decide +kernel)
 
 /-- exactness on `ex1` (K-orthogonal with `λ = 4, 2`): interior face 1 carries the exact flux `-n.KG = -6` -/
 example : rowApply (fluxT ex1) 1 exP = -6 := by
